@@ -55,6 +55,7 @@ struct ReadState {
     segs: VecDeque<Vec<u8>>,
     eof: bool,
     err: bool,
+    intr: bool,
     waker: Option<Waker>,
     reads: usize,
 }
@@ -77,6 +78,11 @@ impl AsyncRead for MockRead {
             }
             return Poll::Ready(Ok(n));
         }
+        if s.intr {
+            s.intr = false;
+            s.err = true; // (to the client any read error is the end of the stream; what follows is never asked for)
+            return Poll::Ready(Err(io::Error::new(io::ErrorKind::Interrupted, "scripted interrupted read")));
+        }
         if s.err {
             return Poll::Ready(Err(io::Error::new(io::ErrorKind::Other, "scripted read error")));
         }
@@ -96,6 +102,8 @@ struct WriteState {
     pend_every: usize, // 0 = never; k = every k-th call returns Pending (self-waking)
     calls: usize,
     budget: Option<usize>, // bytes still accepted before a scripted write error
+    zero_writes: bool,     // the scripted write fault is Ok(0) instead of an error
+    zero_calls: usize,
     block_after: Option<usize>, // bytes still accepted before the writer blocks (Pending, waker kept) until `wunblock`
     wwaker: Option<std::task::Waker>,
 }
@@ -111,6 +119,14 @@ impl AsyncWrite for MockWrite {
             return Poll::Pending;
         }
         if s.budget == Some(0) {
+            if s.zero_writes {
+                // a write half that stops taking bytes: Ok(0) for a non-empty buffer
+                s.zero_calls += 1;
+                if s.zero_calls > 1_000_000 {
+                    panic!("the writer reported Ok(0) a million times within one case: the client spins on it");
+                }
+                return Poll::Ready(Ok(0));
+            }
             return Poll::Ready(Err(io::Error::new(io::ErrorKind::Other, "scripted write error")));
         }
         if s.block_after == Some(0) {
@@ -500,6 +516,23 @@ enum OpOut {
     Unsub(Result<UnsubscribeRsp, MqttError>),
 }
 type OpFut = Pin<Box<dyn Future<Output = OpOut>>>;
+/// a future of the library together with the handle clone it borrows: the future is dropped first, then the handle
+struct HeldFut {
+    fut: Option<OpFut>,
+    hd: *mut ContextHandle,
+}
+impl Future for HeldFut {
+    type Output = OpOut;
+    fn poll(mut self: Pin<&mut Self>, cx: &mut TaskCx<'_>) -> Poll<OpOut> {
+        self.fut.as_mut().expect("polled after drop").as_mut().poll(cx)
+    }
+}
+impl Drop for HeldFut {
+    fn drop(&mut self) {
+        self.fut = None;
+        unsafe { drop(Box::from_raw(self.hd)) };
+    }
+}
 struct OpTask {
     fut: Option<OpFut>,
     flag: Arc<Flag>,
@@ -875,6 +908,18 @@ impl World {
             "werr" => {
                 self.wr.0.borrow_mut().budget = Some(num(args[0]));
             }
+            "werr0" => {
+                // like werr, but the write half reports Ok(0) instead of an error once the budget is used up
+                let mut w = self.wr.0.borrow_mut();
+                w.budget = Some(num(args[0]));
+                w.zero_writes = true;
+            }
+            "rintr" => {
+                // the transport's next read (after what is queued) fails once with ErrorKind::Interrupted
+                self.rd.0.borrow_mut().intr = true;
+                self.wake_reader();
+                self.settle();
+            }
             "wblock" => {
                 // wblock <n>: accept n more bytes, then stay Pending (a congested socket) until `wunblock`
                 self.wr.0.borrow_mut().block_after = Some(num(args[0]));
@@ -904,29 +949,41 @@ impl World {
                     self.emit(format!("? handle {}", h));
                     return;
                 };
-                let mut hd = handle.clone();
+                // The future stored is the one the library's method itself returns, created here and now (an `async fn`
+                // does nothing before its first poll; a method that did part of its work eagerly would show). It borrows
+                // its own clone of the handle, which HeldFut keeps alive exactly as long as the future.
+                let hd: *mut ContextHandle = Box::into_raw(Box::new(handle.clone()));
+                let h: &'static mut ContextHandle = unsafe { &mut *hd };
                 let kind = args[2];
                 let rest = &args[3..];
-                let fut: OpFut = match kind {
+                let inner: OpFut = match kind {
                     "pub" => {
                         let o = publish_opts(&mut self.arena, rest);
-                        Box::pin(async move { OpOut::Unit(hd.publish(o).await) })
+                        let f = h.publish(o);
+                        Box::pin(async move { OpOut::Unit(f.await) })
                     }
                     "sub" => {
                         let o = subscribe_opts(&mut self.arena, rest);
-                        Box::pin(async move { OpOut::Sub(hd.subscribe(o).await) })
+                        let f = h.subscribe(o);
+                        Box::pin(async move { OpOut::Sub(f.await) })
                     }
                     "unsub" => {
                         let o = unsubscribe_opts(&mut self.arena, rest);
-                        Box::pin(async move { OpOut::Unsub(hd.unsubscribe(o).await) })
+                        let f = h.unsubscribe(o);
+                        Box::pin(async move { OpOut::Unsub(f.await) })
                     }
-                    "ping" => Box::pin(async move { OpOut::Unit(hd.ping().await) }),
+                    "ping" => {
+                        let f = h.ping();
+                        Box::pin(async move { OpOut::Unit(f.await) })
+                    }
                     "disc" => {
                         let o = disconnect_opts(&mut self.arena, rest);
-                        Box::pin(async move { OpOut::Unit(hd.disconnect(o).await) })
+                        let f = h.disconnect(o);
+                        Box::pin(async move { OpOut::Unit(f.await) })
                     }
                     _ => panic!("op kind {}", kind),
                 };
+                let fut: OpFut = Box::pin(HeldFut { fut: Some(inner), hd });
                 self.ops.insert(i, OpTask { fut: Some(fut), flag: new_flag(), polled: false, sub: None });
             }
             "poll" | "fpoll" => {
@@ -1006,6 +1063,51 @@ impl World {
             "spin" => {
                 // batch: <count> operations of one kind started, polled and (optionally) acknowledged
                 self.spin(args);
+            }
+            "flood" => {
+                // flood <n> <hex>: the same inbound packet n times, one read each (implementation only)
+                let n: usize = num(args[0]);
+                let b = unhex(args[1]);
+                for k in 0..n {
+                    self.rd.0.borrow_mut().segs.push_back(b.clone());
+                    if k % 64 == 63 {
+                        self.wake_reader();
+                        self.settle();
+                    }
+                }
+                self.wake_reader();
+                self.settle();
+            }
+            "drain" => {
+                // drain <stream> <n>: n polls of the stream; one digest line (implementation only)
+                let j: usize = num(args[0]);
+                let n: usize = num(args[1]);
+                let (mut items, mut pend, mut ended) = (0usize, 0usize, 0usize);
+                let mut first_gap: Option<usize> = None;
+                for k in 0..n {
+                    let mark = self.out.len();
+                    self.poll_stream(j, false);
+                    let l = self.out[mark..].join(" ");
+                    self.out.truncate(mark);
+                    if l.contains(" I ") {
+                        items += 1;
+                    } else if l.contains(" N ") {
+                        pend += 1;
+                        first_gap.get_or_insert(k);
+                    } else {
+                        ended += 1;
+                        first_gap.get_or_insert(k);
+                    }
+                }
+                self.emit(format!(
+                    "Z {} polls={} yielded={} pending={} ended={}{}",
+                    j,
+                    n,
+                    items,
+                    pend,
+                    ended,
+                    first_gap.map(|k| format!(" firstgap={}", k)).unwrap_or_default()
+                ));
             }
             // implementation-only batches (no counterpart in the model; judged by the spec monitors):
             "spinsub" => self.spinsub(args),
